@@ -139,6 +139,11 @@ def gt_invariants(w):
     """extra verdicts for a World with max_requests on, evaluated when run() has returned"""
     bad = []
     wk = w.worker
+    if w.limit_poll is not None:
+        late = [c for c in w.accepted if getattr(c, "accept_poll", 0) > w.limit_poll + 1]
+        if late:
+            bad.append(("accepting-after-limit", "the worker reached max_requests in main-loop round %d and accepted connection %s in round %d: it goes on taking new work "
+                        "while old requests are pending" % (w.limit_poll, late[0].name, late[0].accept_poll)))
     if w.run_returned:
         for c in w.accepted:
             answered = c.wbuf.count(b"HTTP/1.1 200 OK")
@@ -169,9 +174,11 @@ def _gt_task(t):
 def gt_explore(cfg, depth, P):
     """reuse C13's expansion (events x schedules) with the limit switched on; judge every reached state"""
     seen = {}
-    r0 = c13.run_history(cfg, [])
-    seen[r0["canon"]] = []
-    frontier = [[]]
+    start = [(tuple(tuple(e) for e in evs), []) for evs in cfg.get("prefix", [])]
+    r0 = c13.run_history(cfg, start)
+    start = [(evs, [c[1] for c in r0["segments"][i]]) for i, (evs, _ch) in enumerate(start)]
+    seen[r0["canon"]] = start
+    frontier = [start]
     viols = {}
     states = transitions = execs = 0
     for d in range(depth):
@@ -370,10 +377,15 @@ def run(ctx):
             fp = "interleave:%s:%s" % (v[0], cell[0])
             viols.setdefault(fp, violation(fp, "worker=%s %r: %s" % (cell[0], cell[1], v[1]), {"part": "interleave", "cell": [cell[0], cell[1]]}))
     gt = {"states": 0, "transitions": 0, "execs": 0}
-    for cfg, depth, P in ((({"threads": 1, "worker_connections": 3, "keepalive": 2, "max_requests": 2, "menu_mode": "nopipe"}, 4, 1), ({"threads": 2, "worker_connections": 3, "keepalive": 2, "max_requests": 1, "menu_mode": "nopipe"}, 3, 1))
+    for cfg, depth, P in ((({"threads": 1, "worker_connections": 3, "keepalive": 2, "max_requests": 2, "menu_mode": "nopipe"}, 4, 1), ({"threads": 2, "worker_connections": 3, "keepalive": 2, "max_requests": 1, "menu_mode": "nopipe"}, 3, 1),
+                           # the limit is reached by a request that stays in flight: what the worker does with further clients meanwhile
+                           ({"threads": 2, "worker_connections": 4, "keepalive": 2, "max_requests": 1, "menu_mode": "nopipe", "nclients": 3,
+                             "prefix": [[["connect", 0]], [["send", 0, "gate"]]]}, 3, 0))
                           if not ctx.thorough else
                           (({"threads": 1, "worker_connections": 3, "keepalive": 2, "max_requests": 2, "menu_mode": "nopipe"}, 5, 1), ({"threads": 2, "worker_connections": 3, "keepalive": 2, "max_requests": 1, "menu_mode": "nopipe"}, 4, 1),
-                           ({"threads": 2, "worker_connections": 3, "keepalive": 0, "max_requests": 3, "menu_mode": "nopipe"}, 4, 1))):
+                           ({"threads": 2, "worker_connections": 3, "keepalive": 0, "max_requests": 3, "menu_mode": "nopipe"}, 4, 1),
+                           ({"threads": 2, "worker_connections": 4, "keepalive": 2, "max_requests": 1, "menu_mode": "nopipe", "nclients": 3,
+                             "prefix": [[["connect", 0]], [["send", 0, "gate"]]]}, 4, 1))):
         st = gt_explore(cfg, depth, P)
         for k in gt:
             gt[k] += st[k]
